@@ -432,7 +432,9 @@ def evaluate_z3_sub(
     if not z3.is_sub(expr):
         return Nothing
 
-    return Some(construct_result(lambda args: args[0] - args[1], children_results))
+    return Some(
+        construct_result(lambda args: args[0] - sum(args[1:]), children_results)
+    )
 
 
 def evaluate_z3_mul(
@@ -450,11 +452,7 @@ def evaluate_z3_div(
     if not z3.is_div(expr):
         return Nothing
 
-    return Some(
-        construct_result(
-            lambda args: int(float(args[0]) / float(args[1])), children_results
-        )
-    )
+    return Some(construct_result(lambda args: smt_div(*args), children_results))
 
 
 def evaluate_z3_mod(
@@ -463,7 +461,28 @@ def evaluate_z3_mod(
     if not z3.is_mod(expr):
         return Nothing
 
-    return Some(construct_result(lambda args: args[0] % args[1], children_results))
+    return Some(
+        construct_result(
+            lambda args: args[0] - args[1] * smt_div(args[0], args[1]),
+            children_results,
+        )
+    )
+
+
+def smt_div(dividend: int, divisor: int) -> int:
+    """
+    Integer division as defined by SMT-LIB: The remainder is never negative, i.e.,
+    we round towards negative infinity for positive and towards positive infinity
+    for negative divisors. Division by zero is not specified.
+
+    >>> smt_div(7, 2), smt_div(-7, 2), smt_div(7, -2), smt_div(-7, -2)
+    (3, -4, -3, 4)
+    """
+
+    if divisor == 0:
+        raise DomainError("Division by zero is unspecified.")
+
+    return dividend // divisor if divisor > 0 else -(dividend // -divisor)
 
 
 def evaluate_z3_pow(
@@ -659,12 +678,16 @@ def is_valid(formula: z3.BoolRef, timeout: int = 500) -> ThreeValuedTruth:
         else:
             return ThreeValuedTruth.unknown()
 
-    return (
-        evaluate_z3_expression(formula)
-        .map(process_eval_result)
-        .lash(lambda _: Success(solve_using_z3()))
-        .unwrap()
-    )
+    try:
+        return (
+            evaluate_z3_expression(formula)
+            .map(process_eval_result)
+            .lash(lambda _: Success(solve_using_z3()))
+            .unwrap()
+        )
+    except DomainError:
+        # E.g., division by zero: Leave it to Z3.
+        return solve_using_z3()
 
 
 def z3_eq(formula_1: z3.ExprRef, formula_2: z3.ExprRef | str | int) -> z3.BoolRef:
